@@ -7,7 +7,7 @@ for k in 1 2 3 4 5 6; do
   n=$(ls -d seeded/$PID-* 2>/dev/null | sed -E 's/.*-([0-9]+)$/\1/' | sort -n | tail -1); n=$((n+1))
   r=$(./confirm_seeded.sh /tmp/wt/$A-out/$k $PID-$n 2>&1 | tail -1)
   if echo "$r" | grep -q CONFIRMED; then
-    v=$(./trypatch.sh /verif/seeded/$PID-$n/patch.diff $PID | grep "^VIOLATION" | sed -E 's/.*replay=.*\/([^\/]+)\.json/\1/' | head -3 | tr '\n' ' ')
+    v=$(./tryall_scratch.sh /verif/seeded/$PID-$n/patch.diff $PID | grep -v "^UNDECIDED" | head -3 | tr '\n' ' ')
     echo "$A/$k -> $PID-$n : ${v:-MISSED}"
   else
     echo "$A/$k : $r"
